@@ -25,7 +25,7 @@ RULE = ('cases: seeded histories of 15-30 add/remove/lookup ops over a universe 
 ASSUMPTIONS = ['agents\' component sets are not modified while resident (C03\'s dimension)',
                'an out-of-bounds placement may raise any Exception subclass other than DuplicateAgentError (the documented error is a bare Exception)',
                'snapshots read documented public attributes']
-FLOORS = {'quick': {'agents_built_for_another_model': 251, 'listings_edited_by_the_caller': 1108, 'falsy_agent_objects': 319, 'deprecated_alias_calls': 308, 'probe_dup_same': 3000, 'probe_dup_impostor': 3000, 'probe_remove_unknown': 3000, 'probe_strict_unknown': 3000,
+FLOORS = {'quick': {'joins_failing_half_way': 160, 'agents_built_for_another_model': 251, 'listings_edited_by_the_caller': 1108, 'falsy_agent_objects': 319, 'deprecated_alias_calls': 308, 'probe_dup_same': 3000, 'probe_dup_impostor': 3000, 'probe_remove_unknown': 3000, 'probe_strict_unknown': 3000,
                     'probe_oob': 5000, 'probe_oob_taken_id': 500, 'middle_removals': 384, 'big_environments': 4, 'big_ops': 1000, 'edge_placements': 200,
                     'accessor_comparisons': 5000, 'rejected_agent_without_position': 5000, 'contract:Environment.registry': 50000, 'contract:SpaceWorld.containment': 50000,
                     'reach:Core.Environment.add_agent': 5000, 'reach:Environments.SpaceWorld.add_agent': 5000},
@@ -293,6 +293,27 @@ def case_history(ctx, case):
             trace.append(('lookup',))
         compare()
         probes()
+    # a join that fails HALF-WAY (one of the newcomer's components was registered by hand before, so its registration is refused with
+    # the documented KeyError): whatever the outcome for the newcomer, the views of the environment still agree with each other
+    from vlib import faults
+    m2 = core.Model()
+    k2, e2 = 'plain', m2.environment        # (in a spatial world such a newcomer is left without a position: outside this property)
+    for j in range(rng.randint(1, 3)):
+        e2.add_agent(core.Agent(f'r{j}', m2))
+    e2.get_agents(), e2.get_agents(K[0])
+    nb = core.Agent('newcomer', m2)
+    for T in K:
+        nb.add_component(T(nb, m2))
+    m2.systems.register_component(nb[rng.choice(K[1:])])
+    _, err = faults.attempt(e2.add_agent, nb)
+    ctx.count('joins_failing_half_way')
+    listing, iterated, n2, looked_up = e2.get_agents(), list(e2), len(e2), e2.get_agent('newcomer')
+    ok = same_objects(listing, iterated) and n2 == len(iterated) and (looked_up is not None) == any(a is nb for a in iterated) \
+        and sorted(map(id, e2.shuffle())) == sorted(map(id, iterated))
+    if not ok:
+        raise CaseViolation('after a join that failed half-way (a component of the newcomer was already registered) the views of the '
+                            'environment disagree with each other', error=repr(err), listing=[a.id for a in listing],
+                            iteration=[a.id for a in iterated], length=n2, lookup=getattr(looked_up, 'id', None), world=k2)
     ctx.state((kind, tuple(ext or ()), tuple(sorted(ref))))
     if {'middle', 'readd'} <= flags:
         ctx.distinct((kind, tuple(ext or ()), tuple(t[:2] for t in trace)))
